@@ -25,7 +25,9 @@ void h_c13_detect(void)
         kv_n_letters = 0; kv_n_nuc = 0; kv_n_protonly = 0;
         for(i = 0; i < 128; i++){
                 int c = 0;
-#ifndef KV_C13_FULL
+#ifdef KV_C13_TABLES
+                if(0)
+#elif !defined(KV_C13_FULL)
                 /* representatives: 3 shared letters, 2 nucleotide-only, 3 protein-only, 2 letters in neither model, 3 non-letters */
 #ifdef KV_C13_REPS6
                 if(i=='A'||i=='U'||i=='D'||i=='y'||i=='B'||i=='-')
@@ -45,6 +47,10 @@ void h_c13_detect(void)
                 }
         }
         m->biotype = ALN_BIOTYPE_UNDEF;
+#ifdef KV_C13_TABLES
+        kv_ac = kv_in_int();
+        KV_ASSUME(0 <= kv_ac && kv_ac < 128);
+#endif
 #if defined(KV_PREMISE) && KV_PREMISE == 1
         KV_ASSUME(kv_n_letters > 0 && kv_n_nuc == kv_n_letters);
 #elif defined(KV_PREMISE) && KV_PREMISE == 2
